@@ -35,11 +35,15 @@ func svSameWrites(a, b []svKV) bool {
 	return true
 }
 
+// svExtraCurrencies widens the currency alphabet of the domain-name family by
+// that many names (C18 sets 1: OLT, unregistered, and the registered ETH).
+var svExtraCurrencies = 0
+
 // svAnyKind builds a transaction of one of the encoded kinds (family choice).
 func svAnyKindEnv() (*svEnv, action.RawTx, []int) {
 	switch sv.Choice("family", 4) {
 	case 3:
-		svCurrencyLimit = 2
+		svCurrencyLimit = 2 + svExtraCurrencies // C18: also a registered foreign currency (ETH)
 		pre := &svDomainPre{}
 		e := svNewEnv(2, 20, svPreONS(pre))
 		raw, s := svBuildONS(e, sv.Choice("kind", 7))
@@ -104,6 +108,7 @@ func SV_C06_failed_tx_noop() {
 // sv:goal no path ends in a panic, os.Exit (logger.Fatal) or application close
 func SV_C18_no_crash_admitted() {
 	sv.CrashIsViolation("admitted-tx-crashes-node")
+	svExtraCurrencies = 1
 	e, raw, signers := svAnyKindEnv()
 	tx := svSign(raw, signers...)
 	sv.Assume(e.validate(tx))
@@ -120,6 +125,7 @@ func SV_C18_no_crash_admitted() {
 // sv:goal no path ends in a panic, os.Exit (logger.Fatal) or application close
 func SV_C18_no_crash_unvalidated() {
 	sv.CrashIsViolation("delivered-tx-crashes-node")
+	svExtraCurrencies = 1
 	e, raw, signers := svAnyKindEnv()
 	if sv.Choice("nosig", 2) == 1 {
 		signers = nil
